@@ -30,6 +30,7 @@ type G struct {
 	state  int
 	cond   func() bool
 	idle   bool // runnable only when no non-idle goroutine is runnable
+	alt    bool // cond waiter that also wakes (with idle priority) when the world is stuck
 	reason string
 	wake   chan struct{}
 	prio   int
@@ -56,6 +57,7 @@ type Config struct {
 	PCTDepth   int     // StratPCT: number of priority change points
 	PCTSpan    int     // StratPCT: change points are drawn in [0,PCTSpan)
 	MaxSteps   int     // hard budget of scheduling steps (context switches + yields)
+	SpinLimit  int     // fair phase: steps without progress (NoteProgress) that count as a livelock (0: 30000)
 	TimeJump   float64 // probability per park that time jumps to the next timer although goroutines are runnable
 	SiteProb   float64 // fraction of function-entry yield sites that are active
 	Trace      bool    // keep a textual event log
@@ -70,6 +72,8 @@ type Result struct {
 	SchedHash   uint64
 	SimTime     time.Duration
 	BudgetHit   bool
+	Spin        bool     // fair phase: SpinLimit steps without any progress
+	SpinWho     []string // goroutines that ran during the progress-free window
 	Deadlock    bool     // nothing runnable, no timers, root not finished
 	Blocked     []string // who was blocked on what at the end (before abort)
 	Panics      []string // panics that escaped a simulated goroutine
@@ -118,6 +122,10 @@ type Sched struct {
 	siteSalt uint64
 	locals   map[string]interface{}
 	onStep   []func() // invariants evaluated by the scheduler between steps
+	lastProg int
+	spin     bool
+	ring     [32]*G
+	ringN    int
 	invErr   string
 }
 
@@ -344,6 +352,17 @@ func GoNamed(name string, f func()) {
 	Yield()
 }
 
+// Spawn starts a simulated goroutine without a scheduling point (for simulator-internal
+// helpers that must not interrupt the operation that creates them).
+func Spawn(name string, f func()) {
+	s := S
+	if s == nil || s.aborting {
+		return
+	}
+	g := s.newG(name)
+	go s.body(g, f)
+}
+
 func callerName(skip int) string {
 	pc, _, line, ok := runtime.Caller(skip + 1)
 	if !ok {
@@ -392,6 +411,7 @@ func (s *Sched) park(g *G, cond func() bool, idle bool, reason string) {
 	s.mu.Lock()
 	g.cond = cond
 	g.idle = idle
+	g.alt = false
 	g.reason = reason
 	g.state = stParked
 	s.mu.Unlock()
@@ -419,6 +439,10 @@ func Yield() {
 	}
 	switch {
 	case s.fair:
+		if s.steps-s.lastProg > s.cfg.SpinLimit {
+			s.spin = true
+			s.park(g, nil, false, "yield(spin)")
+		}
 		return
 	case s.cfg.Strategy == StratRandom:
 		if s.rng.float() < s.cfg.Stick {
@@ -559,6 +583,16 @@ func Unblock(g *G) {
 func SetFair(on bool) {
 	if S != nil {
 		S.fair = on
+		S.lastProg = S.steps
+	}
+}
+
+// NoteProgress tells the scheduler that the world made observable progress (bytes moved,
+// a descriptor opened or closed, a callback delivered). The fair phase ends as a livelock
+// when SpinLimit steps pass without any.
+func NoteProgress() {
+	if S != nil {
+		S.lastProg = S.steps
 	}
 }
 
@@ -757,6 +791,9 @@ func (s *Sched) runnable() (norm []*G, idle []*G) {
 			continue
 		}
 		if g.cond != nil && !g.cond() {
+			if g.alt {
+				idle = append(idle, g)
+			}
 			continue
 		}
 		if g.idle {
@@ -806,7 +843,11 @@ func (s *Sched) loop(root func()) {
 				f()
 			}
 		}
-		if s.finished || s.budget || len(s.panics) > 0 {
+		if s.finished || s.budget || s.spin || len(s.panics) > 0 {
+			break
+		}
+		if s.fair && s.steps-s.lastProg > s.cfg.SpinLimit {
+			s.spin = true
 			break
 		}
 		norm, idle := s.runnable()
@@ -834,6 +875,8 @@ func (s *Sched) loop(root func()) {
 			s.budget = true
 			break
 		}
+		s.ring[s.ringN%len(s.ring)] = g
+		s.ringN++
 		if s.cur != g {
 			s.switches++
 			s.schHash = (s.schHash ^ uint64(g.ID+1)) * 1099511628211
@@ -891,6 +934,9 @@ func Run(t *testing.T, cfg Config, root func()) (res *Result) {
 	if cfg.TraceLimit <= 0 {
 		cfg.TraceLimit = 20000
 	}
+	if cfg.SpinLimit <= 0 {
+		cfg.SpinLimit = 30000
+	}
 	epochCounter++
 	s := &Sched{cfg: cfg, rng: rng{mix(cfg.Seed) | 1}, epoch: epochCounter,
 		siteOn: map[int]bool{}, siteSalt: mix(cfg.Seed ^ 0x51ed), locals: map[string]interface{}{},
@@ -922,7 +968,17 @@ func Run(t *testing.T, cfg Config, root func()) (res *Result) {
 			s.loop(root)
 			res.SimTime = time.Since(s.start)
 			res.BudgetHit = s.budget
-			if !s.finished && !s.budget && len(s.panics) == 0 {
+			res.Spin = s.spin
+			if s.spin {
+				seen := map[*G]bool{}
+				for _, g := range s.ring {
+					if g != nil && !seen[g] {
+						seen[g] = true
+						res.SpinWho = append(res.SpinWho, g.String())
+					}
+				}
+			}
+			if !s.finished && !s.budget && !s.spin && len(s.panics) == 0 {
 				res.Deadlock = true
 			}
 			s.teardown(res)
@@ -994,6 +1050,57 @@ func Quiesce(horizon time.Duration) {
 		t := s.nextTimer()
 		if t == nil || t.when.After(limit) {
 			return
+		}
+		d := time.Until(t.when)
+		if d <= 0 {
+			d = 1
+		}
+		Sleep(d)
+	}
+}
+
+
+// WaitStuck parks until cond holds (returns true) or until the world is stuck: nothing
+// else is runnable and no timer is due within the horizon (returns false).
+func WaitStuck(reason string, horizon time.Duration, cond func() bool) bool {
+	s := S
+	if s == nil {
+		return cond()
+	}
+	if s.aborting || s.cur == nil {
+		return cond()
+	}
+	g := s.cur
+	limit := time.Now().Add(horizon)
+	for {
+		if cond() {
+			return true
+		}
+		s.steps++
+		if s.steps > s.cfg.MaxSteps {
+			s.budget = true
+		}
+		s.mu.Lock()
+		g.cond = cond
+		g.idle = false
+		g.alt = true
+		g.reason = reason
+		g.state = stParked
+		s.mu.Unlock()
+		<-g.wake
+		g.alt = false
+		if g.abort {
+			runtime.Goexit()
+		}
+		if cond() {
+			return true
+		}
+		if s.budget {
+			return false
+		}
+		t := s.nextTimer()
+		if t == nil || t.when.After(limit) {
+			return false
 		}
 		d := time.Until(t.when)
 		if d <= 0 {
